@@ -2,7 +2,7 @@
 REG = dict(
     engine='E2-bfs',
     technique='explicit-state breadth-first search over request histories of the real JSON-session handler, canonical-state deduplication, differential cross-check of merged states',
-    text="Alphabet of 29 requests (16 evaluations incl. definitions, a redefinition with another arity, assignments to a function and to a built-in name, failing calls, a failing test; 9 REPL commands :skip :replace :abort :resume :forget :forget_local :test :type :locals; three eval_up_to requests incl. the cursor on a parameter the saved call did not have; one malformed line). BFS over all histories of depth <=3 (quick) / <=5 (thorough), deduplicated by canon(Env); every transition is one fresh session executed by handle_request_in_worker. Oracle per request: exactly one non-printed response, no panic escapes, and one more request (`1 + 2`) is answered by exactly one response. Violations are confirmed on `garden reftest-json-session` and on a real `garden json` process (Content-Length framing, exit status 101 / missing responses).",
+    text="Alphabet of 30 requests (17 evaluations incl. definitions, a redefinition with another arity, assignments to a function and to a built-in name, failing calls, a failing test; 9 REPL commands :skip :replace :abort :resume :forget :forget_local :test :type :locals; three eval_up_to requests incl. the cursor on a parameter the saved call did not have; one malformed line). BFS over all histories of depth <=3 (quick) / <=5 (thorough), deduplicated by canon(Env); every transition is one fresh session executed by handle_request_in_worker. Oracle per request: exactly one non-printed response, no panic escapes, and one more request (`1 + 2`) is answered by exactly one response. Violations are confirmed on `garden reftest-json-session` and on a real `garden json` process (Content-Length framing, exit status 101 / missing responses).",
     note=':quit (exits by design), :uptime (wall clock), :load (filesystem) and the `interrupt` request (C08) are outside the alphabet. State identity is canon(Env) (frames, pending expressions, value stacks, bindings, user namespace entries, tests); fields dropped by it are validated by replaying a second history for every merged state.',
     design_ref='DESIGN.md §6 C09',
 )
@@ -25,7 +25,9 @@ EVALS = ['1 + 2', 'let a = 1', 'a', 'a = 2', 'fun f(x) { x + 1 }', 'f(1)', 'fun 
          # a definition and a call in one request, and a redefinition with another arity (saved call arguments then belong to the old signature)
          'fun f(x) { x + 1 }\nf(1)', 'fun f(x, y) { x + y }',
          # assignment to a name that is a function (or a built-in) rather than a variable
-         'f = 2', 'print = 2']
+         'f = 2', 'print = 2',
+         # a call whose two arguments both fail: two stops inside one call expression
+         'fun h(x, y) { x }\nh(u1, u2)']
 COMMANDS = [':skip', ':replace 5', ':abort', ':resume', ':forget f', ':forget_local a', ':test t', ':type 1 + 2', ':locals']
 # eval_up_to inside a function with a parameter: its answer depends on env.prev_call_args (part of canon(Env) as PCA[...])
 EVAL_UP_TO = json.dumps({"method": "eval_up_to", "src": "fun f(x) { x + 1 }", "offset": 13})
@@ -225,8 +227,8 @@ def run(ctx):
         ctx.sample({"history": b.labels(hist), "canon_after": b.canon_of[hist][:300]})
     ctx.assume("state identity = canon(Env) of src/verif_hooks.rs (frames: enclosing name, pending expressions with state tag, value stack, bindings per block, namespace path; "
                "user namespace entries differing from the prelude; test names; type count; saved call arguments used by eval_up_to). Dropped: syntax ids, vfs contents, tick counter, start time, trace flag, type/method tables. "
-               "Validated by replaying a second history for every merged state and comparing all 23 responses and successor canons.")
-    return (f"BFS over histories of <= {depth} requests from a 23-request alphabet, one state per distinct canon(Env); a transition is non-trivial by construction "
+               "Validated by replaying a second history for every merged state and comparing all responses and successor canons.")
+    return (f"BFS over histories of <= {depth} requests from the request alphabet, one state per distinct canon(Env); a transition is non-trivial by construction "
             "(it executes the real handler on the replayed history); `nontrivial` counts distinct canonical states. Oracle: exactly one non-printed response per request, "
             "no panic, and a trailing `1 + 2` is answered by exactly one response.")
 
